@@ -47,6 +47,10 @@ func (t *T) GetRemoveSuffixKey() string {
 }
 
 func (t *T) GetRemovePrefixKey() string {
+	if len(t.key) == 0 {
+		return ""
+	}
+
 	return t.key[1:]
 }
 
